@@ -8,7 +8,9 @@ import (
 	"os"
 	"os/exec"
 	"path/filepath"
+	"runtime"
 	"strings"
+	"time"
 
 	"github.com/alicebob/sqlittle"
 	sdb "github.com/alicebob/sqlittle/db"
@@ -129,6 +131,7 @@ func C06(run *hx.Run) {
 		}
 		c06File(run, probe, writer, path, ps)
 		c06LockStates(run, writer, path)
+		c06FailedOpenThenGC(run, probe, path, ps)
 		writer.CloseConn("w")
 	}
 }
@@ -531,5 +534,79 @@ func c06File(run *hx.Run, probe, writer *hx.Oracle, path string, ps int) {
 				run.Sample(hx.M{"op": c.name, "exit": c.exit, "page_size": ps, "trace_events": traceEvents, "stops_observed": stops})
 			}
 		}
+	}
+}
+
+// c06FailedOpenThenGC: an Open that FAILS (hot journal) must not leave a descriptor of the file behind. The
+// garbage collector closes such a descriptor at some later moment, and closing any descriptor of a file drops
+// every POSIX lock the process holds on it - here the SHARED lock of a later, perfectly normal read.
+// Sequence: several failing Opens; the cause is removed; a new handle reads; inside its callback the collector
+// runs (until a sentinel's finalizer has run, so the leaked files' finalizers had their turn); the probe from
+// another process must still see our lock.
+func c06FailedOpenThenGC(run *hx.Run, probe *hx.Oracle, path string, ps int) {
+	npages := 0
+	if fi, err := os.Stat(path); err == nil {
+		npages = int(fi.Size()) / ps
+	}
+	j := make([]byte, 1024)
+	copy(j, []byte{0xd9, 0xd5, 0x05, 0xf9, 0x20, 0xa1, 0x63, 0xd7, 0, 0, 0, 0, 1, 2, 3, 4, byte(npages >> 24), byte(npages >> 16), byte(npages >> 8), byte(npages), 0, 0, 2, 0})
+	j[24], j[25], j[26], j[27] = byte(ps>>24), byte(ps>>16), byte(ps>>8), byte(ps)
+	if err := os.WriteFile(path+"-journal", j, 0o644); err != nil {
+		return
+	}
+	failed := 0
+	for i := 0; i < 8; i++ {
+		if d, err := sqlittle.Open(path); err != nil {
+			failed++
+		} else {
+			d.Close()
+		}
+	}
+	os.Remove(path + "-journal")
+	if failed == 0 {
+		run.Count("failed_open_then_gc_not_applicable", 1)
+		return
+	}
+	db, err := sqlittle.Open(path)
+	if err != nil {
+		run.Violation("C06/failed-open-then-gc/open", "Open after the journal was removed: "+err.Error(), nil)
+		return
+	}
+	defer db.Close()
+	mypid := os.Getpid()
+	n := 0
+	lost := ""
+	db.Select("t", func(sqlittle.Row) {
+		n++
+		if n != 3 {
+			return
+		}
+		// let the collector finalize whatever the failed Opens left behind
+		for round := 0; round < 3; round++ {
+			done := make(chan struct{})
+			s := new([64]byte)
+			runtime.SetFinalizer(s, func(*[64]byte) { close(done) })
+			s = nil
+			for i := 0; i < 50; i++ {
+				runtime.GC()
+				select {
+				case <-done:
+					i = 50
+				default:
+					time.Sleep(2 * time.Millisecond)
+				}
+			}
+		}
+		lk, err := probe.GetLk(path)
+		run.Eval(1)
+		run.Distinct(fmt.Sprintf("failed-open-then-gc/%d", ps))
+		if err == nil && !(lk.Shared.Type == "RD" && lk.Shared.Pid == mypid) {
+			lost = fmt.Sprintf("probe sees shared range %s/pid %d", lk.Shared.Type, lk.Shared.Pid)
+		}
+	}, "id")
+	if lost != "" {
+		run.Violation("C06/failed-open-then-gc/lock-not-held", fmt.Sprintf("%d Opens failed with a hot journal earlier in this process; during a later Select (another handle, journal gone) the garbage collector ran and our SHARED lock is gone: %s - the failed Opens left descriptors behind whose finalizers closed them", failed, lost), hx.M{"page_size": ps})
+	} else {
+		run.See("failed_open_then_gc", "lock still held after the collector ran")
 	}
 }
